@@ -159,9 +159,8 @@ func (h *H) Validate() error {
 	if h.Ht == 0 {
 		return errors.New("simhdr: zero height")
 	}
-	if h.Chain == "" {
-		return errors.New("simhdr: empty chain id")
-	}
+	// (an empty chain id is structurally fine for this header type: whether it is the
+	// *right* chain is the business of the verification and of the exchange's chain-id check)
 	if len(h.Prev) != 32 {
 		return errors.New("simhdr: bad prev hash length")
 	}
